@@ -602,6 +602,7 @@ static void snap(void)
 /* hist <cfg> <op/op/...> <observed op> [<interposed compression>]
  * ops: c:<ty>:<mode>:<abs bits>:<rel bits>:<pwr bits>:<dims>:<kind>:<seed>:<scale bits>   compress (stream kept)
  *      T:<ty>:<mode>:<abs bits>:<rel bits>:<pwr bits>:<dims>:<kind>:<seed>:<scale bits>   thread-safe customize entry ("SZ") with these bounds in its parameter block
+ *      U:... (same fields)   SZ_compress_customize("SZ") with a parameter block carrying these bounds: (re-)initialises with it, then compresses
  *      d:<k> decompress stream k   m:<k> metadata query on stream k   f finalise and re-initialise with the same configuration
  * after every op the configuration part of the globals and exe_params are printed; finally the observed compression is
  * done and decompressed and the digests of its stream and reconstruction are printed. */
@@ -630,11 +631,11 @@ static void op_hist(int argc, char** a)
 		char* tok0 = pass == 0 ? list : a[2];
 		for (char* t = strtok_r(tok0, "/", &save1); t; t = strtok_r(NULL, "/", &save1)) {
 			int executed = 1;
-			if (t[0] == 'c' || t[0] == 'C' || t[0] == 'k' || t[0] == 'K' || t[0] == 'T') {
+			if (t[0] == 'c' || t[0] == 'C' || t[0] == 'k' || t[0] == 'K' || t[0] == 'T' || t[0] == 'U') {
 				int ty, mode = 0, kind; uint64_t ab = 0, rb = 0, pb = 0, seed, sb; char dims[128]; char name[32] = "";
 				if (t[0] == 'c') sscanf(t, "c:%x:%x:%" SCNx64 ":%" SCNx64 ":%" SCNx64 ":%127[^:]:%d:%" SCNx64 ":%" SCNx64, &ty, &mode, &ab, &rb, &pb, dims, &kind, &seed, &sb);
 				else if (t[0] == 'C') sscanf(t, "C:%x:%127[^:]:%d:%" SCNx64 ":%" SCNx64, &ty, dims, &kind, &seed, &sb);
-				else if (t[0] == 'T') sscanf(t, "T:%x:%x:%" SCNx64 ":%" SCNx64 ":%" SCNx64 ":%127[^:]:%d:%" SCNx64 ":%" SCNx64, &ty, &mode, &ab, &rb, &pb, dims, &kind, &seed, &sb);   /* thread-safe customize entry with bounds of its own */
+				else if (t[0] == 'T' || t[0] == 'U') sscanf(t + 1, ":%x:%x:%" SCNx64 ":%" SCNx64 ":%" SCNx64 ":%127[^:]:%d:%" SCNx64 ":%" SCNx64, &ty, &mode, &ab, &rb, &pb, dims, &kind, &seed, &sb);   /* thread-safe customize entry with bounds of its own */
 				else sscanf(t + 2, "%31[^:]:%x:%127[^:]:%d:%" SCNx64 ":%" SCNx64, name, &ty, dims, &kind, &seed, &sb);   /* k: customize entry, K: its thread-safe twin (float/double) */
 				size_t r[5]; parse_dims(dims, r); size_t n = computeDataLength(r[0], r[1], r[2], r[3], r[4]);
 				char spec[256]; double off = (mode == PW_REL) ? 3.0 : 0.0; uint64_t ob; memcpy(&ob, &off, 8);
@@ -648,8 +649,10 @@ static void op_hist(int argc, char** a)
 				else if (t[0] == 'k') b = SZ_compress_customize(name, NULL, ty, data, r[0], r[1], r[2], r[3], r[4], &os, &cst);
 				else if (t[0] == 'T') { sz_params up = *confparams_cpr; up.errorBoundMode = mode; up.absErrBound = absb; up.relBoundRatio = rel; up.pw_relBoundRatio = pwr;
 					b = SZ_compress_customize_threadsafe("SZ", &up, ty, data, r[0], r[1], r[2], r[3], r[4], &os, &cst); }
+				else if (t[0] == 'U') { sz_params up = *confparams_cpr; up.errorBoundMode = mode; up.absErrBound = absb; up.relBoundRatio = rel; up.pw_relBoundRatio = pwr;
+					b = SZ_compress_customize("SZ", &up, ty, data, r[0], r[1], r[2], r[3], r[4], &os, &cst); }   /* (re-)initialises the library with this block, then compresses */
 				else { sz_params up = *confparams_cpr; b = SZ_compress_customize_threadsafe(name, &up, ty, data, r[0], r[1], r[2], r[3], r[4], &os, &cst); }
-				if (t[0] != 'c' && t[0] != 'T') { mode = confparams_cpr->errorBoundMode; absb = confparams_cpr->absErrBound; rel = confparams_cpr->relBoundRatio; }
+				if (t[0] != 'c' && t[0] != 'T' && t[0] != 'U') { mode = confparams_cpr->errorBoundMode; absb = confparams_cpr->absErrBound; rel = confparams_cpr->relBoundRatio; }
 				if (pass == 1) {
 					uint64_t h = 1469598103934665603ULL; for (size_t i = 0; b && i < os; i++) { h ^= b[i]; h *= 1099511628211ULL; }
 					/* integer streams carry confparams_cpr->dmin (a leftover of the last double compression, never read back) in
